@@ -138,14 +138,24 @@ pub struct Findings {
 
 impl Findings {
   pub fn load() -> Findings {
-    let p = Path::new(VERIF_ROOT).join("known_findings.json");
-    match std::fs::read_to_string(&p) {
-      Ok(s) => serde_json::from_str(&s).unwrap_or_else(|e| {
-        eprintln!("known_findings.json unreadable: {e}");
-        std::process::exit(2)
-      }),
-      Err(_) => Findings::default(),
+    // /verif/known_findings.json plus fragments /verif/known_findings.d/*.json (same format)
+    let mut all = Findings::default();
+    let mut files = vec![Path::new(VERIF_ROOT).join("known_findings.json")];
+    if let Ok(rd) = std::fs::read_dir(Path::new(VERIF_ROOT).join("known_findings.d")) {
+      let mut extra: Vec<PathBuf> = rd.filter_map(|e| e.ok()).map(|e| e.path()).filter(|p| p.extension().map(|x| x == "json").unwrap_or(false)).collect();
+      extra.sort();
+      files.extend(extra);
     }
+    for p in files {
+      if let Ok(s) = std::fs::read_to_string(&p) {
+        let f: Findings = serde_json::from_str(&s).unwrap_or_else(|e| {
+          eprintln!("{} unreadable: {e}", p.display());
+          std::process::exit(2)
+        });
+        all.findings.extend(f.findings);
+      }
+    }
+    all
   }
   /// The open finding (if any) whose signature list contains `sig` for `property`.
   pub fn open_for(&self, property: &str, sig: &str) -> Option<&FindingEntry> {
